@@ -79,6 +79,8 @@ def snapshot() -> dict[str, Any]:
                         out[f"{name}.{v.__name__}.{cattr}"] = _digest(cv)
             elif _interesting(v):
                 out[f"{name}.{attr}"] = _digest(v)
+    # settings of the interpreter that the package may touch
+    out["<interpreter>.recursionlimit"] = sys.getrecursionlimit()
     return out
 
 
@@ -111,6 +113,29 @@ class TrackedMemo(dict):
         inner = _TrackedInner(self, self.who())
         inner.update(v)
         super().__setitem__(k, inner)
+
+    # taking away the entries of a call that is still running (another thread of the same generation) is a foreign write
+    def _note_removed(self, inner: Any, how: str) -> None:
+        me = self.who()
+        owner = getattr(inner, "owner", None)
+        if owner is not None and owner[0] == me[0] and owner[1] != me[1]:
+            with self.lock:
+                self.foreign_reads.append({"entry_of": list(owner), "removed_by": list(me), "how": how})
+
+    def clear(self) -> None:
+        for inner in list(self.values()):
+            self._note_removed(inner, "clear")
+        super().clear()
+
+    def __delitem__(self, k: Any) -> None:
+        if k in self:
+            self._note_removed(super().__getitem__(k), "del")
+        super().__delitem__(k)
+
+    def pop(self, k: Any, *d: Any) -> Any:
+        if k in self:
+            self._note_removed(super().__getitem__(k), "pop")
+        return super().pop(k, *d)
 
 
 class _TrackedInner(_Inner):
@@ -149,4 +174,10 @@ def install_memo() -> TrackedMemo:
         return cur
     t = TrackedMemo()
     setattr(mod, MEMO_NAME, t)
+    # modules that took the table by name (from graph_utils import ...) keep working on the same object as graph_utils
+    for name, m in list(sys.modules.items()):
+        if m is not None and name.startswith("explorerscript"):
+            for attr, v in list(vars(m).items()):
+                if v is cur:
+                    setattr(m, attr, t)
     return t
